@@ -307,8 +307,11 @@ class BSL(ModelBased):
         previous = self.state['logposterior'][n-1]
         logp2 = 0
         if self.logit_transform_bound is not None:
-            curr_sample = self.state['params'][n]
-            prev_sample = self.state['params'][n-1]
+            # the Jacobian is a function of the transformed parameters
+            curr_sample = self._para_logit_transform(self.state['params'][n],
+                                                     self.logit_transform_bound)
+            prev_sample = self._para_logit_transform(self.state['params'][n-1],
+                                                     self.logit_transform_bound)
             logp2 = self._jacobian_logit_transform(curr_sample, self.logit_transform_bound) - \
                 self._jacobian_logit_transform(prev_sample, self.logit_transform_bound)
         res = logp2 + current - previous
@@ -433,7 +436,7 @@ class BSL(ModelBased):
                 logJ[i] = np.log(b-a) - np.log((1/ey) + 2 + ey)
 
             if type_i == '1':
-                logJ[i] = y
+                logJ[i] = -y
             if type_i == '2':
                 logJ[i] = y
             if type_i == '3':
